@@ -260,3 +260,165 @@ func topParent(f *ssa.Function) *ssa.Function {
 func parseFile(fset *token.FileSet, path string) (*ast.File, error) {
 	return parser.ParseFile(fset, path, nil, parser.SkipObjectResolution)
 }
+
+// errResultOf returns the SSA values denoting the error result of a call (the call itself
+// for a single error result, else the Extract of the last result when it is `error`).
+func errResultsOf(c *ssa.Call) []ssa.Value {
+	var out []ssa.Value
+	sig := c.Call.Signature()
+	n := sig.Results().Len()
+	if n == 0 {
+		return nil
+	}
+	last := sig.Results().At(n - 1).Type()
+	if !isErrorType(last) {
+		return nil
+	}
+	if n == 1 {
+		return []ssa.Value{c}
+	}
+	for _, ref := range *c.Referrers() {
+		if ex, ok := ref.(*ssa.Extract); ok && ex.Index == n-1 {
+			out = append(out, ex)
+		}
+	}
+	return out
+}
+
+func isErrorType(t types.Type) bool {
+	return types.Identical(t, types.Universe.Lookup("error").Type())
+}
+
+// nilErrGuards: Ifs testing the error result of call c against nil; pass edge = err == nil.
+// A value stored to a local and re-loaded (err variable) is followed through its cell.
+func nilErrGuards(fn *ssa.Function, c *ssa.Call) []engine.Guard {
+	errs := map[ssa.Value]bool{}
+	for _, e := range errResultsOf(c) {
+		errs[e] = true
+	}
+	if len(errs) == 0 {
+		return nil
+	}
+	return guardsWhere(fn, func(cond ssa.Value) (bool, bool, string) {
+		x, nonNilOnTrue, ok := engine.NilCheck(cond)
+		if !ok {
+			return false, false, ""
+		}
+		x = engine.Unwrap(x)
+		if errs[x] {
+			return true, !nonNilOnTrue, "err == nil"
+		}
+		// phi / cell carrying exactly this error
+		if u, isU := x.(*ssa.UnOp); isU && u.Op == token.MUL {
+			if a, isA := u.X.(*ssa.Alloc); isA {
+				st := engine.StoresTo(a)
+				all := len(st) > 0
+				for _, s := range st {
+					if !errs[engine.Unwrap(s.Val)] {
+						all = false
+					}
+				}
+				if all {
+					return true, !nonNilOnTrue, "err == nil"
+				}
+			}
+		}
+		return false, false, ""
+	})
+}
+
+// retErrKind classifies the error result of a return, looking through results spilled to
+// named-result cells (functions with defer): "nil", "nonnil", "maybe", "none".
+func retErrKind(ret *ssa.Return) string {
+	if len(ret.Results) == 0 {
+		return "none"
+	}
+	last := ret.Results[len(ret.Results)-1]
+	if !isErrorType(last.Type()) {
+		return "none"
+	}
+	if u, ok := last.(*ssa.UnOp); ok && u.Op == token.MUL {
+		if a, isA := u.X.(*ssa.Alloc); isA {
+			// last store to the cell in this block before the return
+			blk := ret.Block()
+			var lastStore *ssa.Store
+			for _, in := range blk.Instrs {
+				if s, ok := in.(*ssa.Store); ok && s.Addr == ssa.Value(a) {
+					lastStore = s
+				}
+			}
+			if lastStore != nil {
+				return valueErrKind(lastStore.Val)
+			}
+			return "maybe"
+		}
+	}
+	return valueErrKind(last)
+}
+
+func valueErrKind(v ssa.Value) string {
+	switch x := v.(type) {
+	case *ssa.Const:
+		if x.Value == nil {
+			return "nil"
+		}
+	case *ssa.MakeInterface:
+		return "nonnil"
+	case *ssa.Call:
+		switch engine.CallID(x) {
+		case "errors.New", "fmt.Errorf", "github.com/pkg/errors.New", "github.com/pkg/errors.Errorf", "github.com/pkg/errors.Wrap", "github.com/pkg/errors.Wrapf", "github.com/pkg/errors.WithMessage":
+			return "nonnil"
+		}
+	case *ssa.UnOp:
+		if x.Op == token.MUL {
+			if _, ok := x.X.(*ssa.Global); ok {
+				return "nonnil" // sentinel error variable
+			}
+		}
+	case *ssa.Phi:
+		k := ""
+		for _, e := range x.Edges {
+			ek := valueErrKind(e)
+			if k == "" {
+				k = ek
+			} else if k != ek {
+				return "maybe"
+			}
+		}
+		return k
+	}
+	return "maybe"
+}
+
+// isRecoverBlock: the synthetic recover block of functions with defers.
+func isRecoverBlock(b *ssa.BasicBlock) bool {
+	return b.Parent().Recover == b
+}
+
+// txFieldLoad: v is a load of Transaction.<field> from the given tx variable.
+func txFieldLoad(v ssa.Value, tx ssa.Value, field string) bool {
+	base, ok := loadOfField(v, "Transaction", field)
+	return ok && engine.Origin(base) == tx
+}
+
+// callOn: v is a call to id whose receiver/first arg Origin is recv (nil = any).
+func callOn(v ssa.Value, recv ssa.Value, ids ...string) (*ssa.Call, bool) {
+	c, ok := engine.Unwrap(v).(*ssa.Call)
+	if !ok || !engine.CallIs(c, ids...) {
+		return nil, false
+	}
+	if recv != nil {
+		a := engine.CallArgs(c)
+		if len(a) == 0 || engine.Origin(a[0]) != recv {
+			return nil, false
+		}
+	}
+	return c, true
+}
+
+func sliceElem(t types.Type) types.Type {
+	if s, ok := t.Underlying().(*types.Slice); ok {
+		return s.Elem()
+	}
+	return t
+}
